@@ -457,8 +457,18 @@ def check_from_count_dict(rep, prog):
     # from_data_dict forwarding
     fd = prog.func(SM, 'Spectrum.from_data_dict')
     t = ast.unparse(fd)
-    okd = has(t, 'cd = dadi.Misc.count_data_dict(data_dict, pop_ids)') and has(t, 'Spectrum._from_count_dict(cd, projections, polarized, pop_ids, mask_corners=mask_corners)')
-    ps = func_params(prog.func(SM, 'Spectrum._from_count_dict'))
+    # the call is bound to the callee's parameters (positional or keyword spelling), the count dictionary resolved through a local
+    from sa.extract import single_assignments as _sa, inline as _inl
+    from sa.srcmodel import bind_call as _bind
+    callee_ = prog.func(SM, 'Spectrum._from_count_dict')
+    calls_ = [c for c in own_nodes(fd) if isinstance(c, ast.Call) and (dotted(c.func) or '').endswith('_from_count_dict')]
+    okd = False
+    if len(calls_) == 1:
+        b_, problems_ = _bind(callee_, calls_[0])
+        sing_ = _sa(fd)
+        got_ = {k: ast.unparse(_inl(v, sing_)) for k, v in b_.items()}
+        okd = not problems_ and got_ == {'count_dict': 'dadi.Misc.count_data_dict(data_dict, pop_ids)', 'projections': 'projections', 'polarized': 'polarized', 'pop_ids': 'pop_ids', 'mask_corners': 'mask_corners'}
+    ps = func_params(callee_)
     okd = okd and ps[:4] == ['count_dict', 'projections', 'polarized', 'pop_ids']
     rep.ob('R-ARGS', 'Spectrum.from_data_dict forwarding', okd, 'count_data_dict(data_dict, pop_ids) -> _from_count_dict(cd, projections, polarized, pop_ids, mask_corners=)', m.rel, fd.lineno,
            what='arguments reach the parameters of the same meaning')
@@ -473,7 +483,21 @@ def check_fragment(rep, prog):
     # parser
     okp = has(t, "chrname, position = ('_'.join(k.split('_')[:-1]), k.split('_')[-1])") and has(t, "position, add_info = position.split('.', 1)") and \
         has(t, "ndd[chrname].append((int(position), add_info))") and (has(t, "if not '.' in position:\n    add_info = None") or has(t, "if '.' not in position:\n    add_info = None"))
-    rep.ob('R-TPL', 'fragment_data_dict key parser', okp, "chromosome = everything before the last '_'; position[.info] after it, info split at the first '.'", m.rel, fn.lineno,
+    if not okp:
+        # the same parser with the split kept in a local
+        from sa.extract import single_assignments as _sa3, inline as _inl3
+        sing_f = _sa3(fn)
+        for n in own_nodes(fn):
+            if isinstance(n, ast.Assign) and len(n.targets) == 1 and isinstance(n.targets[0], ast.Tuple) and isinstance(n.value, ast.Tuple) and len(n.value.elts) == 2 and len(n.targets[0].elts) == 2:
+                a_, b_ = [ast.unparse(_inl3(x, sing_f)) for x in n.value.elts]
+                mk = re.fullmatch(r"'_'\.join\((\w+)\.split\('_'\)\[:-1\]\)", a_)
+                if mk and b_ == "%s.split('_')[-1]" % mk.group(1):
+                    cn, pn_ = [ast.unparse(x) for x in n.targets[0].elts]
+                    okp = has(t, "%s, add_info = %s.split('.', 1)" % (pn_, pn_)) and has(t, "ndd[%s].append((int(%s), add_info))" % (cn, pn_)) and \
+                        (has(t, "if not '.' in %s:\n    add_info = None" % pn_) or has(t, "if '.' not in %s:\n    add_info = None" % pn_) or
+                         has(t, "if '.' in %s:\n    %s, add_info = %s.split('.', 1)\nelse:\n    add_info = None" % (pn_, pn_, pn_)))
+    parser_found = any(isinstance(c, ast.Call) and isinstance(c.func, ast.Attribute) and c.func.attr == 'join' and isinstance(c.func.value, ast.Constant) and c.func.value.value == '_' for c in own_nodes(fn))
+    rep.ob('R-TPL', 'fragment_data_dict key parser', okp, "chromosome = everything before the last '_'; position[.info] after it, info split at the first '.'" + ('' if okp or parser_found else ' (parser not found)'), m.rel, fn.lineno,
            what="keys are parsed as chromosome_position[.info] with '_' and '.' allowed in the chromosome name")
     # printer (inverse)
     fmts = [c for c in own_nodes(fn) if isinstance(c, ast.Call) and isinstance(c.func, ast.Attribute) and c.func.attr == 'format' and isinstance(c.func.value, ast.Constant)]
@@ -481,9 +505,10 @@ def check_fragment(rep, prog):
     okf = got == [('{0}_{1}', ('chrname', 'pos')), ('{0}_{1}.{2}', ('chrname', 'pos', 'add_info'))]
     guard = [n for n in own_nodes(fn) if isinstance(n, ast.If) and ast.unparse(n.test) == 'not add_info']
     okf = okf and len(guard) == 1 and '{0}_{1}' == [c.func.value.value for c in ast.walk(guard[0].body[0]) if isinstance(c, ast.Call) and isinstance(c.func, ast.Attribute) and c.func.attr == 'format'][0]
-    rep.ob('R-TPL', 'fragment_data_dict key printer', okf, 'formats %s' % got, m.rel, fn.lineno, what='the key is rebuilt with the separators the parser split at (inverse of the parser)')
+    rep.ob('R-TPL', 'fragment_data_dict key printer', okf, 'formats %s%s' % (got, '' if guard or okf else ' (the choice between the two formats was not found)'), m.rel, fn.lineno,
+           what='the key is rebuilt with the separators the parser split at (inverse of the parser)')
     okv = has(t, 'new_dds[-1][key] = dd[key]')
-    rep.ob('R-FLOW', 'fragment_data_dict values', okv, 'new_dds[-1][key] = dd[key]', m.rel, fn.lineno, what='each SNP record is copied under its own key')
+    rep.ob('R-FLOW', 'fragment_data_dict values', okv, 'new_dds[-1][key] = dd[key]' + ('' if okv else ' not found'), m.rel, fn.lineno, what='each SNP record is copied under its own key')
     # exactly once + chunk index pairing
     fl = [n for n in own_nodes(fn) if isinstance(n, ast.For) and ast.unparse(n.iter) == 'positions']
     ok1 = False
@@ -503,13 +528,48 @@ def check_fragment(rep, prog):
            what='every SNP lands in exactly one chunk; the chunk index always points at the last chunk created; positions are visited in sorted order')
     okr = has(t, 'for (chrname, chunks) in chunks_dict.items():') and has(t, 'for pos_list in chunks:') and has(t, 'new_dds.append({})') and \
         has(t, 'for pos, add_info in pos_list:') and flat(t).endswith(flat('return new_dds'))
-    rep.ob('R-FLOW', 'fragment_data_dict output', okr, 'one dictionary per chunk, all chunks of all chromosomes', m.rel, fn.lineno, what='the chunk dictionaries partition the input')
+    rep.ob('R-FLOW', 'fragment_data_dict output', okr, 'one dictionary per chunk, all chunks of all chromosomes' + ('' if okr else ' (output loops not recognised)'), m.rel, fn.lineno,
+           what='the chunk dictionaries partition the input')
     # bootstraps
     bf = prog.func(MISC, 'bootstraps_from_dd_chunks')
     rep.saw_function(m.rel + ':bootstraps_from_dd_chunks')
     tb = ast.unparse(bf)
-    okb = has(tb, 'spectra = [Spectrum.from_data_dict(dd, pop_ids, projections, mask_corners, polarized) for dd in fragments]') and has(tb, 'for ii in range(Nboot):') and \
-        has(tb, 'chosen = random.choices(spectra, k=len(spectra))') and has(tb, 'bootstraps.append(functools.reduce(operator.add, chosen))')
+    # the draw: random.choices(<the chunk spectra>, k=<their number>), summed with reduce(operator.add, .), once per bootstrap
+    from sa.extract import single_assignments as _sa2, inline as _inl2
+    sing_b = _sa2(bf)
+    okb = False
+    draws = [c for c in own_nodes(bf) if isinstance(c, ast.Call) and dotted(c.func) == 'random.choices']
+    if len(draws) == 1 and draws[0].args and isinstance(draws[0].args[0], ast.Name):
+        S_ = draws[0].args[0].id
+        kk = {k.arg: k.value for k in draws[0].keywords}.get('k')
+        lc = sing_b.get(S_)
+        src_ok = isinstance(lc, ast.ListComp) and len(lc.generators) == 1 and not lc.generators[0].ifs and isinstance(lc.generators[0].target, ast.Name) and ast.unparse(lc.generators[0].iter) == 'fragments' \
+            and ast.unparse(lc.elt) == 'Spectrum.from_data_dict(%s, pop_ids, projections, mask_corners, polarized)' % lc.generators[0].target.id
+        if isinstance(kk, ast.Name) and kk.id in sing_b:
+            kk = sing_b[kk.id]
+        k_ok = kk is not None and ast.unparse(kk) == 'len(%s)' % S_
+        # summed
+        summed = False
+        rep_ = False
+        node = draws[0]
+        par = getattr(node, '_parent', None)
+        if isinstance(par, ast.Assign) and len(par.targets) == 1 and isinstance(par.targets[0], ast.Name):
+            tmp = par.targets[0].id
+            uses = [c for c in own_nodes(bf) if isinstance(c, ast.Call) and dotted(c.func) == 'functools.reduce' and len(c.args) == 2 and ast.unparse(c.args[0]) == 'operator.add' and ast.unparse(c.args[1]) == tmp]
+            summed = len(uses) == 1
+            node = uses[0] if uses else node
+        elif isinstance(par, ast.Call) and dotted(par.func) == 'functools.reduce' and len(par.args) == 2 and ast.unparse(par.args[0]) == 'operator.add' and par.args[1] is node:
+            summed = True
+            node = par
+        # once per bootstrap: inside a loop / comprehension over range(Nboot)
+        p_ = node
+        while p_ is not None and p_ is not bf:
+            p_ = getattr(p_, '_parent', None)
+            if isinstance(p_, ast.For) and ast.unparse(p_.iter) == 'range(Nboot)':
+                rep_ = True
+            if isinstance(p_, (ast.ListComp, ast.GeneratorExp)) and len(p_.generators) == 1 and ast.unparse(p_.generators[0].iter) == 'range(Nboot)':
+                rep_ = True
+        okb = src_ok and k_ok and summed and rep_
     fdp = func_params(prog.func(SM, 'Spectrum.from_data_dict'))
     okb = okb and fdp[:5] == ['data_dict', 'pop_ids', 'projections', 'mask_corners', 'polarized']
     rep.ob('R-TPL', 'bootstraps_from_dd_chunks resampling', okb, 'Nboot times: len(spectra) chunk spectra drawn with replacement and added', m.rel, bf.lineno,
